@@ -2,8 +2,278 @@
 
 package main
 
-import "fmt"
+import (
+	"bytes"
+	"fmt"
+	"go/ast"
+	"go/parser"
+	"go/printer"
+	"go/token"
+	"os"
+	"path/filepath"
+	"strconv"
+	"strings"
+)
 
+const simsyncPath = "github.com/dadrus/heimdall/internal/verifsim/simsync"
+const simnetPath = "github.com/dadrus/heimdall/internal/verifsim/simnet"
+
+// instrument rewrites the files listed in h.Instrument from the CURRENT working
+// tree and adds the copies to the overlay. Spec syntax: "<path>:<ops>" with ops
+// a '+'-separated subset of
+//
+//	locks   sync.Mutex / sync.RWMutex -> simsync.Mutex / simsync.RWMutex (at least one must be found)
+//	yields  simsync.Yield("<file>:<line>") at function entry, loop heads and before statements containing calls
+//	entry   simsync.Yield at function entry only
+//	dialer  the DialContext element of the http.Transport literal -> simnet.DialContext
+//
+// A pattern that is not found fails the build step (INFRA), never a verdict.
 func instrument(dir string, h *Harness, repl map[string]string) error {
-	return fmt.Errorf("instrumentation not built yet")
+	for _, spec := range h.Instrument {
+		rel, ops, ok := strings.Cut(spec, ":")
+		if !ok {
+			return fmt.Errorf("bad instrument spec %q", spec)
+		}
+		src := filepath.Join(repoDir, rel)
+		out, err := rewriteFile(src, rel, strings.Split(ops, "+"))
+		if err != nil {
+			return fmt.Errorf("instrument %s: %w", rel, err)
+		}
+		dst := filepath.Join(dir, "instr", strings.ReplaceAll(rel, "/", "__"))
+		os.MkdirAll(filepath.Dir(dst), 0o755)
+		if err := os.WriteFile(dst, out, 0o644); err != nil {
+			return err
+		}
+		repl[src] = dst
+	}
+	return nil
+}
+
+func rewriteFile(path, rel string, ops []string) ([]byte, error) {
+	fset := token.NewFileSet()
+	f, err := parser.ParseFile(fset, path, nil, parser.ParseComments)
+	if err != nil {
+		return nil, err
+	}
+	has := func(op string) bool {
+		for _, o := range ops {
+			if o == op {
+				return true
+			}
+		}
+		return false
+	}
+	needSimsync, needSimnet := false, false
+	short := filepath.Base(rel)
+	if has("locks") {
+		n := 0
+		ast.Inspect(f, func(nd ast.Node) bool {
+			se, ok := nd.(*ast.SelectorExpr)
+			if !ok {
+				return true
+			}
+			if id, ok := se.X.(*ast.Ident); ok && id.Name == "sync" && (se.Sel.Name == "Mutex" || se.Sel.Name == "RWMutex") {
+				id.Name = "simsync"
+				n++
+			}
+			return true
+		})
+		if n == 0 {
+			return nil, fmt.Errorf("no sync.Mutex/sync.RWMutex found (file restructured?)")
+		}
+		needSimsync = true
+	}
+	if has("dialer") {
+		n := 0
+		ast.Inspect(f, func(nd ast.Node) bool {
+			kv, ok := nd.(*ast.KeyValueExpr)
+			if !ok {
+				return true
+			}
+			if id, ok := kv.Key.(*ast.Ident); ok && id.Name == "DialContext" {
+				kv.Value = &ast.SelectorExpr{X: ast.NewIdent("simnet"), Sel: ast.NewIdent("DialContext")}
+				n++
+			}
+			return true
+		})
+		if n != 1 {
+			return nil, fmt.Errorf("expected exactly one DialContext element, found %d", n)
+		}
+		needSimnet = true
+	}
+	if has("yields") || has("entry") {
+		full := has("yields")
+		mk := func(pos token.Pos) ast.Stmt {
+			line := fset.Position(pos).Line
+			return &ast.ExprStmt{X: &ast.CallExpr{
+				Fun:  &ast.SelectorExpr{X: ast.NewIdent("simsync"), Sel: ast.NewIdent("Yield")},
+				Args: []ast.Expr{&ast.BasicLit{Kind: token.STRING, Value: strconv.Quote(fmt.Sprintf("%s:%d", short, line))}},
+			}}
+		}
+		containsCall := func(s ast.Stmt) bool {
+			switch s.(type) {
+			case *ast.ExprStmt, *ast.AssignStmt, *ast.ReturnStmt, *ast.IfStmt:
+			default:
+				return false
+			}
+			found := false
+			ast.Inspect(s, func(n ast.Node) bool {
+				switch x := n.(type) {
+				case *ast.FuncLit, *ast.BlockStmt:
+					return false
+				case *ast.CallExpr:
+					// ignore conversions / builtins heuristically: only selector or ident calls count
+					if id, ok := x.Fun.(*ast.Ident); ok {
+						switch id.Name {
+						case "len", "cap", "append", "make", "new", "copy", "string", "byte", "int", "panic", "min", "max":
+							return true
+						}
+					}
+					found = true
+				}
+				return !found
+			})
+			return found
+		}
+		rewriteList := func(list []ast.Stmt) []ast.Stmt {
+			var out []ast.Stmt
+			for _, s := range list {
+				if full && containsCall(s) {
+					out = append(out, mk(s.Pos()))
+				}
+				out = append(out, s)
+			}
+			return out
+		}
+		// phase 1: collect statement lists; phase 2: rewrite them (so inserted statements are never revisited)
+		type blk struct {
+			b     *ast.BlockStmt
+			entry bool
+		}
+		var blocks []*blk
+		byBlock := map[*ast.BlockStmt]*blk{}
+		var clauses []*ast.CaseClause
+		var comms []*ast.CommClause
+		nfuncs := 0
+		markEntry := func(b *ast.BlockStmt) {
+			if b == nil {
+				return
+			}
+			if x, ok := byBlock[b]; ok {
+				x.entry = true
+				return
+			}
+			x := &blk{b: b, entry: true}
+			byBlock[b] = x
+			blocks = append(blocks, x)
+		}
+		ast.Inspect(f, func(nd ast.Node) bool {
+			switch x := nd.(type) {
+			case *ast.FuncDecl:
+				if x.Body != nil {
+					nfuncs++
+					markEntry(x.Body)
+				}
+			case *ast.ForStmt:
+				if full {
+					markEntry(x.Body)
+				}
+			case *ast.RangeStmt:
+				if full {
+					markEntry(x.Body)
+				}
+			case *ast.BlockStmt:
+				if _, ok := byBlock[x]; !ok {
+					b := &blk{b: x}
+					byBlock[x] = b
+					blocks = append(blocks, b)
+				}
+			case *ast.CaseClause:
+				clauses = append(clauses, x)
+			case *ast.CommClause:
+				comms = append(comms, x)
+			}
+			return true
+		})
+		for _, b := range blocks {
+			b.b.List = rewriteList(b.b.List)
+			if b.entry {
+				b.b.List = append([]ast.Stmt{mk(b.b.Lbrace)}, b.b.List...)
+			}
+		}
+		for _, c := range clauses {
+			c.Body = rewriteList(c.Body)
+		}
+		for _, c := range comms {
+			c.Body = rewriteList(c.Body)
+		}
+		if nfuncs == 0 {
+			return nil, fmt.Errorf("no function bodies found")
+		}
+		needSimsync = true
+	}
+	addImport := func(path string) {
+		for _, im := range f.Imports {
+			if im.Path.Value == strconv.Quote(path) {
+				return
+			}
+		}
+		spec := &ast.ImportSpec{Path: &ast.BasicLit{Kind: token.STRING, Value: strconv.Quote(path)}}
+		for _, d := range f.Decls {
+			if gd, ok := d.(*ast.GenDecl); ok && gd.Tok == token.IMPORT {
+				gd.Specs = append(gd.Specs, spec)
+				if !gd.Lparen.IsValid() {
+					gd.Lparen = gd.Pos()
+					gd.Rparen = gd.End()
+				}
+				f.Imports = append(f.Imports, spec)
+				return
+			}
+		}
+		gd := &ast.GenDecl{Tok: token.IMPORT, Specs: []ast.Spec{spec}}
+		f.Decls = append([]ast.Decl{gd}, f.Decls...)
+		f.Imports = append(f.Imports, spec)
+	}
+	if needSimsync {
+		addImport(simsyncPath)
+	}
+	if needSimnet {
+		addImport(simnetPath)
+	}
+	// drop imports that became unused ("sync", "net")
+	for _, name := range []string{"sync", "net"} {
+		used := false
+		ast.Inspect(f, func(nd ast.Node) bool {
+			if se, ok := nd.(*ast.SelectorExpr); ok {
+				if id, ok := se.X.(*ast.Ident); ok && id.Name == name && id.Obj == nil {
+					used = true
+				}
+			}
+			return !used
+		})
+		if used {
+			continue
+		}
+		for _, d := range f.Decls {
+			gd, ok := d.(*ast.GenDecl)
+			if !ok || gd.Tok != token.IMPORT {
+				continue
+			}
+			for i, sp := range gd.Specs {
+				is := sp.(*ast.ImportSpec)
+				if is.Path.Value == strconv.Quote(name) && is.Name == nil {
+					gd.Specs = append(gd.Specs[:i], gd.Specs[i+1:]...)
+					break
+				}
+			}
+		}
+	}
+	// comments interleave badly with inserted statements: drop them from the copy (it is never read by humans)
+	f.Comments = nil
+	var buf bytes.Buffer
+	if err := printer.Fprint(&buf, fset, f); err != nil {
+		return nil, err
+	}
+	// f.Comments = nil also dropped build constraints; the instrumented files have none that matter
+	return buf.Bytes(), nil
 }
